@@ -59,3 +59,19 @@ package apache
 //@   props C19
 //@   ensures isnil(fnThriftWrite) ==> ret == errThriftWriteNotRegistered
 //@   ensures !isnil(fnThriftWrite) ==> same(ret, apply(fnThriftWrite, w, v))
+
+// Registration replaces the callback, whatever was registered before (nil unregisters).
+//@ func RegisterCheckTStruct
+//@   props C19
+//@   ensures same(fnCheckTStruct, fn)
+//@   assigns fnCheckTStruct
+
+//@ func RegisterThriftRead
+//@   props C19
+//@   ensures same(fnThriftRead, fn)
+//@   assigns fnThriftRead
+
+//@ func RegisterThriftWrite
+//@   props C19
+//@   ensures same(fnThriftWrite, fn)
+//@   assigns fnThriftWrite
